@@ -88,6 +88,34 @@ def requests(run, r):
                 yield {'dir': REQ, 'fc': 8, 'sub': sub, 'data': [v]}
 
 
+COVERED_FCS = (1, 2, 3, 4, 5, 6, 8, 15, 16, 23)
+
+
+def introspected_requests(run, r):
+    """"every request class exposing a reply-size prediction": the classes registered in the server decoder are asked, so a
+    prediction added to another request type (none on this tree) is swept as well"""
+    from pymodbus.factory import ServerDecoder
+    dec = ServerDecoder()
+    extra = []
+    for fc in range(1, 128):
+        try:
+            cls = dec.lookupPduClass(fc)
+        except Exception:  # noqa
+            continue
+        if cls is None or fc in COVERED_FCS or not hasattr(cls, 'get_response_pdu_size'):
+            continue
+        extra.append(fc)
+    run.observed['request_classes_with_a_prediction_outside_the_list'] = extra
+    for fc in extra:
+        for _ in range(12):
+            try:
+                m = gen.message(r, REQ, fc, None, small=True)
+            except Exception:  # noqa
+                break
+            if fc in (20, 21, 22, 24, 7, 11, 12, 17, 43):
+                yield m
+
+
 def size_case(run, m):
     """part A for one request"""
     case = {'part': 'sizes', 'm': m}
@@ -114,7 +142,7 @@ def size_case(run, m):
         else:
             run.violation('pdu-size:%s' % k, case, 'predicted %d, reply PDU %s... is %d bytes' % (predicted, pdu.hex()[:40], len(pdu)))
         ok = False
-    if m['fc'] != 8:
+    if m['fc'] in (1, 2, 3, 4, 5, 6, 15, 16, 22, 23):
         model = S.encode(P.lazy_regfile().execute(m))
         run.count('size_comparisons')
         if len(model) != predicted:
@@ -144,16 +172,18 @@ def size_case(run, m):
     return ok
 
 
-def read_case(run, kind, m, exception=False):
-    """part B: one transaction of a real serial client on the fake port"""
-    case = {'part': 'reads', 'client': kind, 'm': m, 'exception': exception}
+def read_case(run, kind, m, exception=False, echo=False):
+    """part B: one transaction of a real serial client on the fake port (echo: an adaptor that echoes what the host sends,
+    client configured with handle_local_echo)"""
+    case = {'part': 'reads', 'client': kind, 'm': m, 'exception': exception, 'echo': echo}
     framing = IO.framing_of(kind)
     peer = P.ScriptedPeer(framing, script=[{'kind': 'exception', 'code': 2}] if exception else [], timeout=1.0)
     env = IO.Env(peer)
+    env.echo = echo
     unit = 17
     repo.reset_globals()
     with IO.installed(env):
-        client = IO.make_client(kind, timeout=1.0)
+        client = IO.make_client(kind, timeout=1.0, **({'handle_local_echo': True} if echo else {}))
         try:
             client.connect()
             t0 = env.clock.now
@@ -179,8 +209,9 @@ def read_case(run, kind, m, exception=False):
         run.region('binary-delimiter-in-body')
     ok = True
     why = None
-    if sum(r for r in reads if r and r > 0) != len(sent):
-        why = 'read sizes %r sum to %d, reply frame is %d bytes' % (reads, sum(r for r in reads if r), len(sent))
+    echoed = len(conn.written[-1][1]) if echo and conn.written else 0
+    if sum(r for r in reads if r and r > 0) != len(sent) + echoed:
+        why = 'read sizes %r sum to %d, reply frame is %d bytes%s' % (reads, sum(r for r in reads if r), len(sent), ' after an echo of %d bytes' % echoed if echo else '')
     elif conn.available():
         why = '%d reply bytes left unread' % conn.available()
     elif elapsed >= 1.0:
@@ -320,7 +351,8 @@ def run(run):
                 'transport read sizes vs reply frame; distinct = (part, request kind, quantity); all non-trivial')
     run.assumptions = ['reference ADU builder', 'register-file model as the conformant server', 'pyserial semantics of the fake port']
     n = 0
-    for m in requests(run, r):
+    import itertools
+    for m in itertools.chain(requests(run, r), introspected_requests(run, r)):
         n += 1
         ok = size_case(run, m)
         q = m.get('count', len(m.get('bits', m.get('registers', m.get('data', [])))))
@@ -330,6 +362,8 @@ def run(run):
         # part B on a thinned set (every quantity modulo 8 and the extremes are kept)
         if m['fc'] == 8 and m['sub'] in (2, 3, 10, 20, 21, 1):
             continue                     # diagnostics that alter process-wide state or have pymodbus-only replies
+        if m['fc'] not in COVERED_FCS + (22,):
+            continue
         stride = 1 if run.thorough else 23
         if q <= 17 or q % stride == 0 or q >= MAXQ.get(m['fc'], 0) - 2:
             for kind in ('rtu', 'ascii', 'binary'):
@@ -337,6 +371,9 @@ def run(run):
                     if exc and q > 3 and not run.thorough:
                         continue
                     ok = read_case(run, kind, m, exc)
+                    if q <= 3 or q % 97 == 0:
+                        ok = read_case(run, kind, m, exc, echo=True) and ok
+                        run.count('echo_transactions')
                     run.case(h64(('B', kind, m['fc'], m.get('sub'), q, exc)), True,
                              sample={'part': 'reads', 'client': kind, 'fc': m['fc'], 'quantity': q, 'exception_reply': exc, 'verdict': 'held' if ok else 'differs'},
                              sample_class=('B', kind, exc))
@@ -376,5 +413,5 @@ def replay(run, case):
     if case['part'] == 'sizes':
         print('held' if size_case(run, m) else 'differs')
     else:
-        print('held' if read_case(run, case['client'], m, case['exception']) else 'differs')
+        print('held' if read_case(run, case['client'], m, case['exception'], case.get('echo', False)) else 'differs')
     run.evaluations += 1
